@@ -312,6 +312,9 @@ def rescale(img, scale, shape=None, mask=None, order=3, mode='nearest',
     """
 
     img = np.asarray(img)
+    if not np.iscomplexobj(img):
+        # integer and boolean images (e.g. masks) are interpolated as floats
+        img = img.astype(float)
 
     if mask is None:
         # take the real portion to ensure that even if img is complex, mask will
